@@ -659,9 +659,12 @@ class Builder:
             if isinstance(fv0, dict) and fv0.get("k") == "path":
                 return self.build({"k": "call", "f": fv0, "args": xs}, fr, k2)
             raise Unrecognised("combinator argument is not a closure or a function path", node)
+        # arguments of the non-lazy combinators are evaluated whether or not they are used: on the path that drops one, a call
+        # into user code in it is an effect the returned value does not show
+        unused = lambda arg, f1: f1.with_effect(arg) if effectful(arg) else f1
         if fam == "bool":
             if name == "then_some" and len(rest) == 1:
-                return self.cond_value(recv, fr, lambda f1: kont(some(rest[0]), f1), lambda f1: kont(none, f1), node)
+                return self.cond_value(recv, fr, lambda f1: kont(some(rest[0]), f1), lambda f1: kont(none, unused(rest[0], f1)), node)
             if name == "then" and len(rest) == 1:
                 return self.cond_value(recv, fr, lambda f1: apply(rest[0], [], lambda v, f2: kont(some(v), f2)), lambda f1: kont(none, f1), node)
             return None
@@ -674,21 +677,21 @@ class Builder:
             if name == "or_else" and len(rest) == 1:
                 return kont(recv, fr) if is_some else apply(rest[0], [], kont)
             if name == "or" and len(rest) == 1:
-                return kont(recv if is_some else rest[0], fr)
+                return kont(recv, unused(rest[0], fr)) if is_some else kont(rest[0], fr)
             if name == "and_then" and len(rest) == 1:
                 return apply(rest[0], [x], kont) if is_some else kont(none, fr)
             if name == "map" and len(rest) == 1:
                 return apply(rest[0], [x], lambda v, f2: kont(some(v), f2)) if is_some else kont(none, fr)
             if name == "map_or" and len(rest) == 2:
-                return apply(rest[1], [x], kont) if is_some else kont(rest[0], fr)
+                return (apply(rest[1], [x], lambda v, f2: kont(v, unused(rest[0], f2))) if is_some else kont(rest[0], fr))
             if name == "map_or_else" and len(rest) == 2:
                 return apply(rest[1], [x], kont) if is_some else apply(rest[0], [], kont)
             if name == "unwrap_or" and len(rest) == 1:
-                return kont(x if is_some else rest[0], fr)
+                return kont(x, unused(rest[0], fr)) if is_some else kont(rest[0], fr)
             if name == "unwrap_or_else" and len(rest) == 1:
                 return kont(x, fr) if is_some else apply(rest[0], [], kont)
             if name == "ok_or" and len(rest) == 1:
-                return kont(okc(x) if is_some else errc(rest[0]), fr)
+                return kont(okc(x), unused(rest[0], fr)) if is_some else kont(errc(rest[0]), fr)
             if name == "ok_or_else" and len(rest) == 1:
                 return kont(okc(x), fr) if is_some else apply(rest[0], [], lambda v, f2: kont(errc(v), f2))
             if name == "filter" and len(rest) == 1:
@@ -716,7 +719,7 @@ class Builder:
             if name == "or_else" and len(rest) == 1:
                 return kont(recv, fr) if is_ok else apply(rest[0], [x], kont)
             if name == "unwrap_or" and len(rest) == 1:
-                return kont(x if is_ok else rest[0], fr)
+                return kont(x, unused(rest[0], fr)) if is_ok else kont(rest[0], fr)
             if name in ("is_ok", "is_err") and not rest:
                 return kont({"k": "lit", "ty": "bool", "v": is_ok == (name == "is_ok")}, fr)
         return None
